@@ -66,8 +66,8 @@ func (ex *Exec) evalBool(e Expr, env *SpecEnv) Term {
 
 // loopEnv builds the environment for loop clauses: names resolve to current locals.
 func (ex *Exec) loopEnv(fr *Frame, li *loopInfo, st *State) *SpecEnv {
-	old := &SpecEnv{vars: fr.params, st: fr.entry, lst: st, pkg: fr.fn.Pkg.Pkg, fr: fr, li: li, isOld: true, topOld: fr.entry.top}
-	return &SpecEnv{vars: map[string]Val{}, st: st, lst: st, old: old, pkg: fr.fn.Pkg.Pkg, fr: fr, li: li, topOld: fr.entry.top}
+	old := &SpecEnv{vars: fr.params, st: fr.entry, lst: st, pkg: fnPkg(fr.fn), fr: fr, li: li, isOld: true, topOld: fr.entry.top}
+	return &SpecEnv{vars: map[string]Val{}, st: st, lst: st, old: old, pkg: fnPkg(fr.fn), fr: fr, li: li, topOld: fr.entry.top}
 }
 
 // findLocal resolves a source-level variable name visible at the loop.
@@ -109,7 +109,7 @@ func (ex *Exec) findLocal(fr *Frame, li *loopInfo, name string) *ssa.Alloc {
 		return cands[0]
 	}
 	if pos.IsValid() {
-		if sc := fr.fn.Pkg.Pkg.Scope().Innermost(pos); sc != nil {
+		if sc := fnPkg(fr.fn).Scope().Innermost(pos); sc != nil {
 			if _, obj := sc.LookupParent(name, pos); obj != nil {
 				for _, a := range cands {
 					if a.Pos() == obj.Pos() {
